@@ -5,6 +5,50 @@ NOTES = ('Technique: machine-checked proof in Coq 8.16.1. See DESIGN.md. '
          'writes evidence/<id>.json.')
 NOT_APPLICABLE = {}
 CHECKS = {
+ 'C18': dict(
+   design_ref='§6 C18',
+   technique='Coq proofs over dom_to_width/_bitfield_limits translated from the sources (tie T) + hand model of prime.py/temporal.py with vm_compute correspondence (tie H)',
+   text=('dom_to_width / _bitfield_limits are translated from the sources on '
+         'every run; for all lo <= hi (unbounded): every declaration is '
+         'accepted, the hint lies within the reported limits, the value map '
+         'is a bijection from the declared-width bit fields (with the '
+         'constant sign bit for sign-definite hints) onto the limits '
+         '(least/greatest), sign-bit shape exact, stored values read back. '
+         'Unbounded theorems on a hand model of prime.py / temporal.py: '
+         'prime semantics, unprime(prime u) = u on state predicates, rigid '
+         'constants untouched, renaming = value at the renamed assignment, '
+         'support classification exact, type-hint / type-action / '
+         'implies_type_hints exact on representable assignments. The model '
+         'is tied to the real code exhaustively over a window of hints and '
+         'on random automata (truth tables over all bit assignments), both '
+         'back ends.'),
+   note=('Trusted: Coq kernel+vm_compute; py2coq translator (fail-closed; '
+         'declared_hint is hand-written glue); dd by meaning; type-hint '
+         'formula text -> BDD via C06 plus correspondence; bit = (variable, '
+         'index) relies on injective naming (guard of fix F15); '
+         'vars_in_support, is_primed_state_predicate, is_action_of_player, '
+         'support_issubset by correspondence only. No axioms.')),
+ 'C07': dict(
+   design_ref='§6 C07',
+   technique='Coq proofs on a hand model of fol.Context / enumeration (tie H) + vm_compute correspondence and explicit-set oracle on both back ends; dd.pick_iter contract evaluated in Coq on the real cubes',
+   text=('Unbounded theorems for all tables and predicates on a hand model '
+         'of fol.Context / enumeration: bits<->values bijection; let '
+         '(values), rename, exist, forall, assign_from, support, apply, '
+         'replace_with_bdd equal the operations on the explicit set of '
+         'representable assignments; _enumerate_int exact; pick_iter for any '
+         'cubes meeting the measured dd contract is sound, complete, exactly '
+         'once, pairwise incompatible, total when care contains the support; '
+         'count = number of models over the care bits = number yielded '
+         '(explicit and default care sets); pick exact; bit naming '
+         'injective (old code refuted: F15). Every Context method of the '
+         'anchor list is run on random contexts over both back ends and '
+         'compared with the model in Coq and with explicit Python sets.'),
+   note=('Trusted: Coq kernel+vm_compute; dd operations by meaning; the '
+         'dd.pick_iter contract is a Section hypothesis, discharged on a '
+         'concrete instance and evaluated in Coq on the real cubes of both '
+         'back ends every run; copy compared by meaning only; sampled '
+         'correspondence (sizes in evidence). Model describes the '
+         'F15-repaired code. No axioms.')),
  'C11': dict(
    design_ref='§6 C11',
    technique='Coq proof over code translated from fixpoint.py (tie T) + vm_compute correspondence on random arenas',
